@@ -306,6 +306,29 @@ func unitC15(x *ctx) {
 			"pipeline-diamond-nesting":     "tasks:\n  t:\n    command: echo\npipelines:\n  top:\n    - pipeline: l\n    - pipeline: r\n  l:\n    - pipeline: leaf\n  r:\n    - pipeline: leaf\n  leaf:\n    - task: t\n",
 			"watcher-null":                 "watchers:\n  w: ~\n",
 		}
+		// scale: deep nesting where every level is included by two stages of the level above (2^depth inclusion
+		// paths, 41 pipelines), a long chain of stages, many tasks: loading ends in bounded time
+		{
+			var b strings.Builder
+			b.WriteString("tasks:\n  t:\n    command: echo\npipelines:\n")
+			for i := 0; i < 40; i++ {
+				fmt.Fprintf(&b, "  l%02d:\n    - pipeline: l%02d\n      name: one\n    - pipeline: l%02d\n      name: two\n      depends_on: [one]\n", i, i+1, i+1)
+			}
+			b.WriteString("  l40:\n    - task: t\n")
+			texts["pipeline-deep-shared-nesting"] = b.String()
+			b.Reset()
+			b.WriteString("tasks:\n  t:\n    command: echo\npipelines:\n  long:\n    - task: t\n      name: s000\n")
+			for i := 1; i < 200; i++ {
+				fmt.Fprintf(&b, "    - task: t\n      name: s%03d\n      depends_on: [s%03d]\n", i, i-1)
+			}
+			texts["pipeline-200-stage-chain"] = b.String()
+			b.Reset()
+			b.WriteString("tasks:\n")
+			for i := 0; i < 500; i++ {
+				fmt.Fprintf(&b, "  t%03d:\n    command: echo %d\n", i, i)
+			}
+			texts["500-tasks"] = b.String()
+		}
 		extra := map[string]string{
 			"inc/j.json": "{\"tasks\": {\"j\": {\"command\": \"echo j\", \"env\": {\"A\": \"b\"}}}}",
 			"inc/t.toml": "[tasks.tt]\ncommand = \"echo t\"\n[tasks.tt.env]\nA = \"b\"\n",
